@@ -207,6 +207,18 @@ def lin_in(t, sym):
     return co.get(s, 0), k
 
 
+def _lookups(t):
+    """index terms of every table element read inside t, whichever way the read is spelled (Index::index / get call on a
+    Vec, or an indexing projection on a slice)"""
+    out = []
+    for x in walk(t):
+        if x[0] == "call" and isinstance(x[1], str) and (x[1].endswith("::index") or x[1].endswith("::get")) and len(x[2]) == 2:
+            out.append(x[2][1])
+        elif x[0] == "index" and len(x) == 3:
+            out.append(x[2])
+    return out
+
+
 def unwrap_cast(t):
     while t[0] == "cast" and t[1] == "IntToInt":
         t = t[2]
@@ -294,8 +306,8 @@ def run(ctx):
                         # the first quintant must be that of the cell's own face
                         # (an accessor such as `A5Cell::origin(cell)` is read through to the table lookup it performs)
                         fqt = inline_calls(facts, fq[0])
-                        idx = [x for x in walk(fqt) if x[0] == "call" and (x[1].endswith("::index") or x[1].endswith("::get")) and len(x[2]) == 2]
-                        good = len(idx) == 1 and strip_site(unwrap_cast(idx[0][2][1])) == o
+                        idx = _lookups(fqt)
+                        good = len(idx) == 1 and strip_site(unwrap_cast(idx[0])) == o
                         why += " ; rotation (segment + %d - first_quintant[origin_id]) mod 5" % ik
                 run.inst("C05.R4", "writer-code[%s]" % nm, good, why + " (must be 5*face + (segment - first_quintant[face]) mod 5)", where_ser)
         else:
@@ -387,8 +399,8 @@ def run(ctx):
                 fq = [a for a in ico if a[0] == "field" and a[2] == "first_quintant"]
                 codes = [a for a in ico if is_code(a)]
                 if len(fq) == 1 and len(codes) == 1 and ico[fq[0]] == 1 and ico[codes[0]] == 1 and ik % 5 == 0 and len(ico) == 2:
-                    idx = [x for x in walk(fq[0]) if x[0] == "call" and (x[1].endswith("::index") or x[1].endswith("::get")) and len(x[2]) == 2]
-                    oks_ = len(idx) == 1 and strip_site(unwrap_cast(idx[0][2][1])) == strip_site(o) if okd else False
+                    idx = _lookups(fq[0])
+                    oks_ = len(idx) == 1 and strip_site(unwrap_cast(idx[0])) == strip_site(o) if okd else False
                     why = "segment = (code + first_quintant[code/5]) mod 5 : inverse of the writer's rotation for the same face"
             run.inst("C05.R4", "reader-code[%s]" % nm, okd and oks_, "origin = %s ; %s" % (fmt(o), why), where_des)
         # bounds check of the face number before it is used
